@@ -1140,14 +1140,16 @@ def sift_second_layer(IA, sift_func=sift, sift_args=None):
     """
     IA = ensure_2d([IA], ['IA'], 'sift_second_layer')
 
-    if (sift_args is None) or ('max_imfs' not in sift_args):
-        max_imfs = IA.shape[1]
-    elif 'max_imfs' in sift_args:
-        max_imfs = sift_args['max_imfs']
+    # Work on a copy and make sure the second layer sifts are capped to the
+    # size of the output array
+    sift_args = {} if sift_args is None else dict(sift_args)
+    if sift_args.get('max_imfs') is None:
+        sift_args['max_imfs'] = IA.shape[1]
+    max_imfs = sift_args['max_imfs']
 
     imf2 = np.zeros((IA.shape[0], IA.shape[1], max_imfs))
 
-    for ii in range(max_imfs):
+    for ii in range(IA.shape[1]):
         tmp = sift_func(IA[:, ii], **sift_args)
         imf2[:, ii, :tmp.shape[1]] = tmp
 
